@@ -98,9 +98,11 @@ for ln in open(sys.argv[2]):
         print("  unexpected:", fn, f)
         bad += 1
 gen = open(sys.argv[1].replace("report.json", "Gen_sem_bad.v")).read()
-if "Definition" in gen:
-    print("  a definition was emitted for a refused function")
-    bad += 1
+for ln in open(sys.argv[2]):
+    fn = ln.split("\t")[0].strip()
+    if fn and ("Definition gen_%s " % fn) in gen:
+        print("  a definition was emitted for the refused function", fn)
+        bad += 1
 print("  %d refused functions checked" % n)
 sys.exit(1 if bad else 0)
 EOP
